@@ -333,6 +333,16 @@ def concrete_entries():
         if what == "from_preset":
             inp = dict(center=ctr)
             return inp, (lambda: AtomGrid.from_preset(atnum=8, preset="coarse", rgrid=rg, center=ctr)), []
+        if what.endswith("/r0"):
+            # a radial grid with a node at the origin: the r = 0 shells take a separate branch in the angular integration
+            rg0 = OneDGrid(np.concatenate(([0.0], rg.points[1:])), rg.weights, (0, np.inf))
+            ag0 = AtomGrid(rg0, degrees=degs, center=np.array([0.1, -0.2, 0.3]))
+            fv0 = ro(np.exp(-np.sum((ag0.points - ag0.center) ** 2, axis=1)) * (1 + ag0.points[:, 0]))
+            fv2 = ro(np.vstack([np.asarray(fv0), 2 * np.asarray(fv0)]))
+            inp = dict(func_vals=fv0, func_vals_2d=fv2)
+            calls0 = {"integrate_angular_coordinates/r0": lambda: (ag0.integrate_angular_coordinates(fv0), ag0.integrate_angular_coordinates(fv2)), "spherical_average/r0": lambda: ag0.spherical_average(fv0)(np.array([0.0, 0.4])),
+                      "radial_component_splines/r0": lambda: ag0.radial_component_splines(fv0), "interpolate/r0": lambda: ag0.interpolate(fv0)(np.array([[0.1, -0.2, 0.3], [0.4, 0.0, 0.1]]))}
+            return inp, calls0[what], []
         ag = AtomGrid(rg, degrees=degs, center=np.array([0.1, -0.2, 0.3]))
         fv = ro(np.exp(-np.sum((ag.points - ag.center) ** 2, axis=1)) * (1 + ag.points[:, 0]))
         q = ro(np.array([[0.3, 0.1, 0.2], [0.1, -0.2, 0.3], [1.0, 1.0, -1.0]]))
@@ -461,7 +471,7 @@ def concrete_entries():
         return inp, calls[what], []
 
     for w in ("init/degrees", "init/sizes", "from_pruned", "from_pruned/lists", "from_pruned/sizes", "from_preset", "integrate", "integrate_angular_coordinates", "spherical_average", "radial_component_splines",
-              "interpolate", "convert_cartesian_to_spherical", "get_shell_grid", "moments", "get_localgrid"):
+              "interpolate", "convert_cartesian_to_spherical", "get_shell_grid", "moments", "get_localgrid", "integrate_angular_coordinates/r0", "spherical_average/r0", "radial_component_splines/r0", "interpolate/r0"):
         yield f"concrete/AtomGrid.{w}", (lambda w=w: ent_atom(w))
     for w in ("from_size", "from_pruned", "from_preset", "from_preset/list", "init/callable", "init/array", "init/hirshfeld", "integrate", "interpolate", "get_atomic_grid", "getitem", "get_localgrid", "dipole", "moments"):
         yield f"concrete/MolGrid.{w}", (lambda w=w: ent_mol(w))
